@@ -83,9 +83,9 @@ contract(
     params={"self": "obj:WalkerAbs", "heads": "opaque", "depth": "opaque"}, returns="list[opaque]", raises={ANY: None},
     modifies=["self.advertise_refs", "self.stateless_rpc", "self.proto", "self.handler"],      # (no frame claim: bookkeeping methods are abstract)
     loops={1: dict(invariant=["True"]),
-           2: dict(invariant=["all(member(values, want_revs[r]) for r in range(0, len(want_revs)))"], types={"want_revs": "list[opaque]"})},
-    ensures=["all(member(values, result[r]) for r in range(0, len(result)))"],
-    options={"immutable_sets": ["values"], "default_param": "opaque",
+           2: dict(invariant=["all(want_revs[r] in values for r in range(0, len(want_revs)))"], types={"want_revs": "list[opaque]"}, keep=["values"])},
+    ensures=["all(result[r] in values for r in range(0, len(result)))"],
+    options={"default_param": "opaque",
              "callee_contracts": dict({"ObjectID": ("<abstract>", "ObjectID@id"), "_split_proto_line": ("<abstract>", "_split_proto_line@abs"),
                                        "WalkerAbs.read_proto_line": ("<abstract>", "WalkerAbs.read_proto_line@abs")},
                                       **{f"WalkerAbs.{m_}": ("<abstract>", f"WalkerAbs.{m_}@abs") for m_ in ("get_symrefs", "get_peeled", "set_ack_type", "set_wants", "unread_proto_line", "_handle_shallow_request")})},
